@@ -18,8 +18,9 @@ EXPLANATION = (
     "bounded(0, n) returns is not fixed by the property); (cycle) walkdir loop errors become WalkErrorKind::LinkCycle "
     "(C20.map); (leaf) the flag a cancellation consults before asking walkdir to leave the current directory is the yielded entry's "
     "own file type, so a link read as a file is a leaf and discarding it cannot pop its parent (C13.isdir).  That walkdir honours its window, never descends into links unless asked and detects re-entrant links "
-    "is assumed; termination on finite trees follows from walkdir's and is not decided.")
-RULES = "C15.window (TABLE on a grid), C15.ctor (TABLE), C15.cycle (= C20.map), C15.leaf (= C13.isdir)"
+    "is assumed; termination on finite trees follows from walkdir's and is not decided.  "
+    "(reach) for 19 glob texts (no prefix, one / two component prefixes, rooted, `..`, wholly invariant, tree wildcards) x 3 base directories x 23 depth behaviours x 2 link behaviours the public route is evaluated as a whole - Glob::new (parser with the nom model, rule checker), Glob::walk_with_behavior (invariant prefix, join, pivot, depth translation, WalkTree construction) and the first next() - against the walkdir model and a hand-written table of prefixes and match depths: whenever a possible match has a depth inside the bounds, walkdir must be consulted on the base joined with the prefix with exactly the window of traversal depths w for which min <= w + (components of the prefix) <= max (when no match can lie inside the bounds nothing is demanded); (convert) every From conversion into WalkBehavior / DepthBehavior and the three defaults carry what they are given and leave the rest at the documented defaults.")
+RULES = "C15.window (TABLE on a grid), C15.ctor (TABLE), C15.cycle (= C20.map), C15.leaf (= C13.isdir), C15.reach (TABLE on a catalogue, end to end: glob text -> walkdir root and window), C15.convert (TABLE), C20.source"
 
 DB = "walk::behavior::DepthBehavior"
 LB = "walk::behavior::LinkBehavior"
@@ -32,6 +33,8 @@ def run(ctx):
     R.undecided("emptiness when the minimum exceeds the deepest entry of the actual tree (a run-time quantity); termination on finite trees (walkdir's)")
     rule_ctor(F, R)
     rule_window(F, R)
+    rule_reach(F, R)
+    rule_convert(F, R)
     c20.rule_map(F, R)
     from . import c13
     c13.rule_isdir(F, R)    # a link read as a file is a leaf: the flag a cancellation consults is the entry's own file type
@@ -103,6 +106,7 @@ INF = W.INF
 
 
 def rule_window(F, R):
+    c20.rule_source(F, R)    # the window is only honoured by a walk that consults walkdir at all
     """C15.window (TABLE on a grid): the walk constructed for (depth behaviour, pivot) consults walkdir with exactly the
     window of traversal depths w for which min <= w + pivot <= max, and consults nothing when no depth qualifies
     (maximum smaller than the prefix).  Construction and the first next() are evaluated together, so the rule does not
@@ -169,3 +173,206 @@ def rule_window(F, R):
     for (kind, sig), items in sorted(grouped.items()):
         R.fail("C15.window", "%s/%s" % (kind, sig), "%d cell(s), first: %s: %s" % (len(items), items[0][0], items[0][1]), ctor.where())
     R.floor("C15.window", "behaviour x pivot x link cells", n, 250)
+
+
+# ---------------------------------------------------------------------------------------------------------------------
+# C15.reach: from the glob text to the walkdir window, end to end
+
+# (glob text, invariant prefix as a path text, least and greatest Entry::depth of a match (None = unbounded)); written
+# by hand from the README: the prefix is the run of literal components before the first pattern, a rooted glob replaces
+# the base directory and its root segment is empty, so the root directory counts as a component of the relative segment
+REACH_GLOBS = [
+    ("*", "", 1, 1), ("a/*", "a", 2, 2), ("a/b/*", "a/b", 3, 3), ("a/**", "a", 1, None), ("**", "", 0, None), ("a/b", "a/b", 2, 2),
+    ("/a/*", "/a", 3, 3), ("/a/b/*", "/a/b", 4, 4), ("/**", "/", 1, None), ("/a/**", "/a", 2, None), ("../a/*", "../a", 3, 3),
+    ("a", "a", 1, 1), ("*/b", "", 2, 2), ("{a,b}/*", "", 2, 2), ("a/*/c", "a", 3, 3), ("a/b*", "a", 2, 2), ("(?-i)x/*", "x", 2, 2),
+    ("a/b/**/c", "a/b", 3, None), ("/a/b", "/a/b", 3, 3),
+]
+REACH_BASES = ["base", "", "/abs"]
+
+
+def reach_behaviours():
+    out = [("Unbounded", 0, None, Adt(DB, "Unbounded", {}))]
+    for mx in range(0, 5):
+        out.append(("Max(%d)" % mx, 0, mx, Adt(DB, "Max", {"0": Adt("walk::behavior::DepthMax", "DepthMax", {"0": mx})})))
+    for mn in range(1, 6):
+        out.append(("Min(%d)" % mn, mn, None, Adt(DB, "Min", {"0": Adt("walk::behavior::DepthMin", "DepthMin", {"0": mn})})))
+    for mn in range(1, 5):
+        for ex in range(0, 3):
+            out.append(("MinMax(%d,%d)" % (mn, mn + ex), mn, mn + ex, Adt(DB, "MinMax", {"0": Adt("walk::behavior::DepthMinMax", "DepthMinMax", {"min": mn, "extent": ex})})))
+    return out
+
+
+_REACH = None
+
+
+def _reach_job(job):
+    from .. import nommodel as N
+    from . import pathmodel as PM
+    from ..teval import ok, UNIT
+    F, new, walk, nxt = _REACH
+    text, base, bname, dval, lname = job
+    stubs = dict(N.stubs())
+    stubs.update(PM.stubs())
+    stubs.update(W.walkdir_stubs())
+    # magnitudes and regex compilation play no part here (C05 / C01 decide them)
+    stubs["rule::size"] = lambda I, a, fn, e: ok(UNIT)
+    stubs["walk::glob::WalkProgram::compile"] = lambda I, a, fn, e: ok(RList([]))
+    stubs["encode::compile"] = lambda I, a, fn, e: ok(Sym("program"))
+    stubs["Glob::compile"] = lambda I, a, fn, e: ok(Sym("program"))
+    I = Interp(F, stubs, fuel=3000000)
+    beh = Adt("walk::behavior::WalkBehavior", "WalkBehavior", {"link": Adt(LB, lname, {}), "depth": dval})
+
+    def run():
+        g = strip(I.call_item(new, [text]))
+        if not (isinstance(g, Adt) and g.variant == "Ok"):
+            I.emit("not-built", repr(g)[:200])
+            return g
+        it_ = I.call_item(walk, [Ref(Place(Cell(g.fields["0"]))), PM.from_text(base), beh], inst=False)
+        wt = c20.find_walk_tree(it_)
+        if wt is None:
+            I.emit("no-walk-tree", repr(strip(it_))[:200])
+            return it_
+        return I.call_item(nxt, [Ref(Place(Cell(wt)))])
+    try:
+        cases = I.explore(run)
+    except RecursionError:
+        return {"unanalysable": "recursion limit"}
+    if I.tops or len(cases) != 1 or isinstance(cases[0].result, (Top, Panicked)):
+        return {"unanalysable": str((I.tops[:1] or [c.result for c in cases][:2]))[:300]}
+    log = cases[0].log
+    if any(ev[0] in ("not-built", "no-walk-tree") for ev in log):
+        return {"unanalysable": str([ev for ev in log if ev[0] in ("not-built", "no-walk-tree")][0])[:300]}
+    return {"new": [ev[1] for ev in log if ev[0] == "walkdir.new"], "next": [tuple(ev[1:]) for ev in log if ev[0] == "walkdir.next"]}
+
+
+def rule_reach(F, R):
+    """C15.reach (TABLE on a catalogue, end to end): for glob texts (no prefix, one / two component prefixes, rooted,
+    `..` prefix, wholly invariant, empty, tree wildcards) x base directories (relative, empty, absolute) x every depth
+    behaviour of the C15.window grid x both link behaviours, the public route is evaluated from the THIR as a whole -
+    Glob::new (parser with the nom model, rule checker), Glob::walk_with_behavior (invariant prefix, join with the base,
+    pivot, depth translation, WalkTree construction) and the first next() - against the model of walkdir.  Whenever some
+    entry the glob can match has a depth (number of components of its relative segment) inside the configured bounds,
+    walkdir must be consulted, on the base joined with the prefix (the prefix alone for a rooted glob), with exactly the
+    window of traversal depths w for which min <= w + (components of the prefix) <= max and the configured link
+    behaviour.  When no match can lie inside the bounds either answer is right and nothing is demanded."""
+    from . import pathmodel as PM
+    new = F.find("Glob::new", optional=True)
+    walk = F.find("Glob::walk_with_behavior", optional=True)
+    nxt = F.find("<walk::WalkTree as std::iter::Iterator>::next", optional=True)
+    if new is None or walk is None or nxt is None:
+        R.anchor_missing("C15.reach", "Glob::new / Glob::walk_with_behavior / WalkTree::next")
+        return
+    global _REACH
+    _REACH = (F, new, walk, nxt)
+    jobs = []
+    meta = []
+    for text, prefix, dlo, dhi in REACH_GLOBS:
+        for base in REACH_BASES:
+            for bname, mn, mx, dval in reach_behaviours():
+                for lname, follow in (("ReadFile", False), ("ReadTarget", True)):
+                    jobs.append((text, base, bname, dval, lname))
+                    meta.append((text, prefix, dlo, dhi, base, bname, mn, mx, lname, follow))
+    import multiprocessing as mp
+    import os as _os
+    import sys as _sys
+    _sys.setrecursionlimit(20000)
+    with mp.get_context("fork").Pool(min(16, _os.cpu_count() or 4)) as pool:
+        results = pool.map(_reach_job, jobs, chunksize=32)
+    n = demanded = 0
+    bad = []
+    for (text, prefix, dlo, dhi, base, bname, mn, mx, lname, follow), res in zip(meta, results):
+        n += 1
+        inst = "`%s` from `%s` %s %s" % (text, base, bname, lname)
+        if "unanalysable" in res:
+            bad.append((inst, "the route from the glob text to the first item could not be evaluated: %s" % res["unanalysable"]))
+            continue
+        ppath = PM.from_text(prefix)
+        pivot = PM.n_components(ppath)
+        root = PM.join(PM.from_text(base), ppath) if prefix else PM.from_text(base)
+        lo = max(mn - pivot, 0)
+        hi = INF if mx is None else mx - pivot
+        # traversal depths at which the glob can match
+        tlo = dlo - pivot
+        thi = INF if dhi is None else dhi - pivot
+        if hi < 0 or max(lo, tlo) > min(hi, thi):
+            continue        # no match can lie inside the bounds: an empty walk and a walk of the window are both right
+        demanded += 1
+        want_root = repr(strip(root))
+        got_new, got_next = res["new"], res["next"]
+        if got_new == [want_root] and got_next == [(lo, hi, follow)]:
+            R.ok("C15.reach", inst, "walkdir on %s, depths %d..%s" % (PM.show(root), lo, "inf" if hi == INF else hi), walk.where(), sample=(demanded % 301 == 1))
+        else:
+            bad.append((inst, "matches of `%s` walked from `%s` have depths %d..%s, the bounds %s admit some of them, so walkdir must be consulted on %s with "
+                        "traversal depths %d..%s (prefix of %d component(s)), follow_links = %s; it is consulted %s" % (
+                            text, base, dlo, "inf" if dhi is None else dhi, bname, PM.show(root), lo, "inf" if hi == INF else hi, pivot, follow,
+                            ("on %s with %s" % (got_new, got_next)) if got_next else "never (the walk is empty)")))
+    bad.sort(key=lambda x: (len(x[0]), x[0]))
+    for inst, msg in bad[:8]:
+        R.fail("C15.reach", inst, msg + (" [%d cells deviate; the shortest are reported]" % len(bad) if len(bad) > 8 else ""), walk.where())
+    for inst, msg in bad[8:]:
+        R.obligations.append(("C15.reach", inst, False, msg))
+    R.floor("C15.reach", "glob x base x behaviour x link cells evaluated", n, 2600)
+    R.floor("C15.reach", "cells in which a match lies inside the bounds", demanded, 1000)
+
+
+def rule_convert(F, R):
+    """C15.convert (TABLE): the conversions through which callers hand a behaviour to a walk (`impl Into<WalkBehavior>`)
+    carry exactly what they are given and leave the rest at the documented defaults (depth unbounded, links read as
+    files): every From impl into WalkBehavior and DepthBehavior, and the three Default impls, evaluated on
+    representative values."""
+    def canon(v):
+        v = strip(v)
+        if isinstance(v, Adt):
+            return (v.path.split("::")[-1], v.variant, tuple(sorted((k, canon(x)) for k, x in v.fields.items())))
+        return v
+    dmax = Adt("walk::behavior::DepthMax", "DepthMax", {"0": 3})
+    dmin = Adt("walk::behavior::DepthMin", "DepthMin", {"0": 2})
+    dmm = Adt("walk::behavior::DepthMinMax", "DepthMinMax", {"min": 2, "extent": 1})
+    unb = Adt(DB, "Unbounded", {})
+    rf = Adt(LB, "ReadFile", {})
+    rt = Adt(LB, "ReadTarget", {})
+
+    def wb(depth, link):
+        return Adt("walk::behavior::WalkBehavior", "WalkBehavior", {"depth": depth, "link": link})
+    samples = {
+        "walk::behavior::DepthMax": [(dmax, Adt(DB, "Max", {"0": dmax}))],
+        "walk::behavior::DepthMin": [(dmin, Adt(DB, "Min", {"0": dmin}))],
+        "walk::behavior::DepthMinMax": [(dmm, Adt(DB, "MinMax", {"0": dmm}))],
+        "walk::behavior::DepthBehavior": [(Adt(DB, "Max", {"0": dmax}), Adt(DB, "Max", {"0": dmax})), (unb, unb)],
+        "walk::behavior::LinkBehavior": [(rt, None), (rf, None)],
+        "()": [(Tup([]), None)],
+    }
+    n = 0
+    for it in sorted(F.items.values(), key=lambda i: i.key):
+        if not it.where().startswith("src/walk/behavior.rs"):
+            continue
+        if it.name == "default" and it.impl_trait == "std::default::Default" and it.impl_adt in (DB, LB, "walk::behavior::WalkBehavior"):
+            I = Interp(F)
+            res = tabulate.single(I.explore(lambda: I.call_item(it, [])))
+            want = {DB: unb, LB: rf, "walk::behavior::WalkBehavior": wb(unb, rf)}[it.impl_adt]
+            n += 1
+            R.check(canon(res) == canon(want), "C15.convert", "%s::default" % it.impl_adt.split("::")[-1], "the documented default", it.where(),
+                    fail_msg="%s::default() is %r, documented: %r" % (it.impl_adt, strip(res), want))
+            continue
+        if it.name != "from" or it.impl_trait != "std::convert::From" or it.impl_adt not in (DB, "walk::behavior::WalkBehavior"):
+            continue
+        th = F.thir(it)
+        src = F.ty_str(th["params"][0]["ty"])
+        for value, as_depth in samples.get(src, []):
+            I = Interp(F)
+            res = tabulate.single(I.explore(lambda: I.call_item(it, [value])))
+            if it.impl_adt == DB:
+                want = as_depth
+            elif src == "walk::behavior::LinkBehavior":
+                want = wb(unb, value)
+            elif src == "()":
+                want = wb(unb, rf)
+            else:
+                want = wb(as_depth, rf)
+            n += 1
+            R.check(canon(res) == canon(want), "C15.convert", "%s from %s %r" % (it.impl_adt.split("::")[-1], src.split("::")[-1], strip(value)),
+                    "carries the given value, defaults elsewhere", it.where(),
+                    fail_msg="converting %r into %s gives %r, expected %r" % (strip(value), it.impl_adt.split("::")[-1], strip(res), want))
+        if src not in samples:
+            R.fail("C15.convert", "%s from %s" % (it.impl_adt, src), "a conversion from %s into %s that the rule has no reference for" % (src, it.impl_adt), it.where())
+    R.floor("C15.convert", "conversions and defaults evaluated", n, 14)
